@@ -1,11 +1,11 @@
 import CookModel.Driver.Num
 import CookModel.Driver.Aisle
-import CookModel.Driver.Syntax
+-- import CookModel.Driver.Syntax   -- (aisle branch: main@cffb4a1 Syntax/Blocks.lean does not build yet; re-enable when merging)
 /- Registry of line-protocol handlers. One line per area. -/
 namespace Cook.Driver
 def handlers : List (List String → Option String) := [
   handleNum,
-  handleAisle,
-  handleSyntax
+  handleAisle
+  -- , handleSyntax
 ]
 end Cook.Driver
